@@ -588,6 +588,25 @@ def p_mofProduction(p):
                      """
 
 
+def _create_namespace(p, ns):
+    """
+    Create a namespace in the WBEM server of the CIM repository, raising
+    MOFRepositoryError if that fails.
+    """
+    try:
+        p.parser.server.create_namespace(ns)
+    except CIMError as ce:
+        raise MOFRepositoryError(
+            msg=_format("Cannot create namespace {0!A} because the CIM "
+                        "repository returned an error", ns),
+            parser_token=p,
+            cim_error=ce)
+    except Error as exc:
+        raise MOFRepositoryError(
+            msg=_format("Cannot create namespace {0!A}: {1}", ns, exc),
+            parser_token=p)
+
+
 def p_mp_createClass(p):
     """mp_createClass : classDeclaration
                       """
@@ -622,17 +641,21 @@ def p_mp_createClass(p):
                 errcode = ce.status_code
 
                 if errcode == CIM_ERR_INVALID_NAMESPACE:
-                    assert not fixedNS  # Should not happen if we created it
+                    if fixedNS or p.parser.server is None:
+                        # Creating it did not help, or it cannot be created
+                        raise
                     if p.parser.verbose:
                         p.parser.log(
                             _format("Creating namespace {0} (in MOF compiler)",
                                     ns))
-                    p.parser.server.create_namespace(ns)
+                    _create_namespace(p, ns)
                     fixedNS = True
                     continue  # Try again to create the class
 
                 if errcode == CIM_ERR_INVALID_SUPERCLASS:
-                    assert not fixedSuper  # Should not happen if we fixed it
+                    if fixedSuper:
+                        # Compiling the superclass did not help
+                        raise
                     moffile = p.parser.mofcomp.find_mof(cc.superclass)
                     if not moffile:
                         raise MOFDependencyError(
@@ -834,7 +857,7 @@ def p_mp_createInstance(p):
                 raise MOFRepositoryError(
                     msg=_format(
                         "Cannot compile instance of {0!A} because its instance "
-                        "path cannot be created from the instance: {}",
+                        "path cannot be created from the instance: {1}",
                         inst.classname, ve),
                     parser_token=p)
 
@@ -883,35 +906,42 @@ def p_mp_setQualifier(p):
             _format("Setting qualifier {0}:{1}",
                     ns, qualdecl.name))
     try:
-        p.parser.handle.SetQualifier(qualdecl, namespace=ns)
+        try:
+            p.parser.handle.SetQualifier(qualdecl, namespace=ns)
+        except CIMError as ce:
+            if ce.status_code == CIM_ERR_INVALID_NAMESPACE and \
+                    p.parser.server is not None:
+                if p.parser.verbose:
+                    p.parser.log(
+                        _format("Creating namespace {0} (in MOF compiler)",
+                                ns))
+                _create_namespace(p, ns)
+                if p.parser.verbose:
+                    p.parser.log(
+                        _format("Setting qualifier {0}:{1}",
+                                ns, qualdecl.name))
+                p.parser.handle.SetQualifier(qualdecl, namespace=ns)
+            elif ce.status_code == CIM_ERR_NOT_SUPPORTED:
+                if p.parser.verbose:
+                    p.parser.log(
+                        _format("Qualifier {0}:{1} already exists. "
+                                "Deleting...", ns, qualdecl.name))
+                p.parser.handle.DeleteQualifier(qualdecl.name)
+                if p.parser.verbose:
+                    p.parser.log(
+                        _format("Setting qualifier {0}:{1}",
+                                ns, qualdecl.name))
+                p.parser.handle.SetQualifier(qualdecl, namespace=ns)
+            else:
+                raise
     except CIMError as ce:
-        if ce.status_code == CIM_ERR_INVALID_NAMESPACE:
-            if p.parser.verbose:
-                p.parser.log(
-                    _format("Creating namespace {0} (in MOF compiler)", ns))
-            p.parser.server.create_namespace(ns)
-            if p.parser.verbose:
-                p.parser.log(
-                    _format("Setting qualifier {0}:{1}", ns, qualdecl.name))
-            p.parser.handle.SetQualifier(qualdecl, namespace=ns)
-        elif ce.status_code == CIM_ERR_NOT_SUPPORTED:
-            if p.parser.verbose:
-                p.parser.log(
-                    _format("Qualifier {0}:{1} already exists. Deleting...",
-                            ns, qualdecl.name))
-            p.parser.handle.DeleteQualifier(qualdecl.name)
-            if p.parser.verbose:
-                p.parser.log(
-                    _format("Setting qualifier {0}:{1}", ns, qualdecl.name))
-            p.parser.handle.SetQualifier(qualdecl, namespace=ns)
-        else:
-            raise MOFRepositoryError(
-                msg=_format(
-                    "Cannot compile qualifier declaration {0!A} because the "
-                    "CIM repository returned an error for SetQualifier",
-                    qualdecl.name),
-                parser_token=p,
-                cim_error=ce)
+        raise MOFRepositoryError(
+            msg=_format(
+                "Cannot compile qualifier declaration {0!A} because the "
+                "CIM repository returned an error for SetQualifier",
+                qualdecl.name),
+            parser_token=p,
+            cim_error=ce)
     p.parser.qualcache[ns][qualdecl.name] = qualdecl
 
 
